@@ -222,6 +222,58 @@ fn permute<X>(e: &mut [Option<X>; CAP], used: &mut [bool; CAP]) {
   { let _ = (e, used); }
 }
 
+// --- wider std API surface, so that realistic refactors of the code under test still compile against the model ----------
+impl<K, V, S> HashMap<K, V, S> {
+  pub fn hasher(&self) -> &S { &self.s }
+  pub fn with_hasher(s: S) -> Self { Self { e: [const { None }; CAP], used: [false; CAP], len: 0, s } }
+  pub fn with_capacity_and_hasher(_c: usize, s: S) -> Self { Self::with_hasher(s) }
+  pub fn capacity(&self) -> usize { CAP }
+  pub fn reserve(&mut self, _n: usize) {}
+  pub fn shrink_to_fit(&mut self) {}
+  pub fn keys(&self) -> impl Iterator<Item = &K> + '_ { self.iter().map(|p| p.0) }
+  pub fn values(&self) -> impl Iterator<Item = &V> + '_ { self.iter().map(|p| p.1) }
+  pub fn values_mut(&mut self) -> impl Iterator<Item = &mut V> + '_ { self.e.iter_mut().filter_map(|o| o.as_mut().map(|t| &mut t.2)) }
+  pub fn iter_mut(&mut self) -> impl Iterator<Item = (&K, &mut V)> + '_ { self.e.iter_mut().filter_map(|o| o.as_mut().map(|t| (&t.1, &mut t.2))) }
+  pub fn retain<F: FnMut(&K, &mut V) -> bool>(&mut self, mut f: F) {
+    let mut i = 0;
+    while i < CAP {
+      if self.used[i] { let keep = { let t = ent_mut(&mut self.e[i]); f(&t.1, &mut t.2) }; if !keep { self.e[i] = None; self.used[i] = false; self.len -= 1; } }
+      i += 1;
+    }
+  }
+}
+impl<K, V> HashMap<K, V, RandomState> { pub fn with_capacity(_c: usize) -> Self { Self::default() } }
+impl<K: Eq + Hash, V, S: BuildHasher> HashMap<K, V, S> {
+  pub fn get_key_value<Q: ?Sized + Hash + Eq>(&self, q: &Q) -> Option<(&K, &V)> where K: Borrow<Q> {
+    let hq = self.h(q);
+    let mut i = 0;
+    while i < CAP { if self.used[i] { let t = ent(&self.e[i]); if t.0 == hq && t.1.borrow() == q { return Some((&t.1, &t.2)); } } i += 1; }
+    None
+  }
+}
+impl<K: Eq + Hash, V, S: BuildHasher> ::std::iter::Extend<(K, V)> for HashMap<K, V, S> {
+  fn extend<I: IntoIterator<Item = (K, V)>>(&mut self, it: I) { for (k, v) in it { self.insert(k, v); } }
+}
+impl<K: Eq + Hash, V, S: BuildHasher + Default> ::std::iter::FromIterator<(K, V)> for HashMap<K, V, S> {
+  fn from_iter<I: IntoIterator<Item = (K, V)>>(it: I) -> Self { let mut m = Self::default(); for (k, v) in it { m.insert(k, v); } m }
+}
+impl<'a, K, V, S> IntoIterator for &'a HashMap<K, V, S> { type Item = (&'a K, &'a V); type IntoIter = MapIter<'a, K, V>; fn into_iter(self) -> MapIter<'a, K, V> { self.iter() } }
+impl<T, S> HashSet<T, S> {
+  pub fn hasher(&self) -> &S { self.m.hasher() }
+  pub fn with_hasher(s: S) -> Self { Self { m: HashMap::with_hasher(s) } }
+  pub fn with_capacity_and_hasher(_c: usize, s: S) -> Self { Self::with_hasher(s) }
+  pub fn capacity(&self) -> usize { CAP }
+  pub fn reserve(&mut self, _n: usize) {}
+  pub fn shrink_to_fit(&mut self) {}
+  pub fn retain<F: FnMut(&T) -> bool>(&mut self, mut f: F) { self.m.retain(|k, _| f(k)) }
+}
+impl<T> HashSet<T, RandomState> { pub fn with_capacity(_c: usize) -> Self { Self::default() } }
+impl<T: Eq + Hash, S: BuildHasher> HashSet<T, S> {
+  pub fn get<Q: ?Sized + Hash + Eq>(&self, q: &Q) -> Option<&T> where T: Borrow<Q> { self.m.get_key_value(q).map(|p| p.0) }
+  pub fn take<Q: ?Sized + Hash + Eq>(&mut self, q: &Q) -> Option<T> where T: Borrow<Q> + Clone { let r = self.get(q).cloned(); if r.is_some() { self.m.remove(q); } r }
+}
+impl<'a, T, S> IntoIterator for &'a HashSet<T, S> { type Item = &'a T; type IntoIter = SetIter<'a, T>; fn into_iter(self) -> SetIter<'a, T> { self.iter() } }
+
 // --- conveniences used only by /repo's own unit tests when they are run against the models (validate_models.sh) ---------
 impl<T: Eq + Hash, S: BuildHasher + Default> ::std::iter::FromIterator<T> for HashSet<T, S> {
   fn from_iter<I: IntoIterator<Item = T>>(it: I) -> Self { let mut s = Self::default(); for x in it { s.insert(x); } s }
